@@ -13,7 +13,9 @@ from . import bcommon as B
 CATEGORY = "other"
 EXPLANATION = B.MIXED + (
     "P: the vector -> matrix statement of each of the five expand bodies is evaluated symbolically on a vector of complex symbols and proved to be "
-    "|psi><psi| (entry (i, j) == psi_i * conj(psi_j)); Config: the contraction flag is written only by set_contraction / __init__ (C14 contracts) "
+    "|psi><psi| (entry (i, j) == psi_i * conj(psi_j)); each of the five contract bodies: the purity test is |Tr(rho^2) - 1| < tol of the stored state and "
+    "dominates the contraction, eigh is taken of the stored state itself (symbolic 3x3 Hermitian rho, sympy), the stored vector is the eigenvector "
+    "column of the eigenvalue closest to one, and the vector -> label step uses no tolerance parameter; Config: the contraction flag is written only by set_contraction / __init__ (C14 contracts) "
     "and read through Config().contractions at the contraction sites. B: expand / contract at every container, location, level and state class "
     "(pure, nearly pure within the library's tolerance, mixed, degenerate spectrum, exact basis): joint state unchanged, contract changes the level "
     "only for pure states (to a label only for exact basis states) and otherwise leaves the block bit-identical. Neutrality: every operation / "
@@ -29,7 +31,15 @@ def outer_product_obligations(rep):
     psi = sp.Matrix([[a], [b], [c]])
     want = psi * psi.H
 
+    locals_ = {}
+
     def ev(e, me):
+        if isinstance(e, ast.Name) and e.id in locals_:
+            return locals_[e.id]
+        if isinstance(e, ast.BinOp) and isinstance(e.op, ast.MatMult):
+            return ev(e.left, me) * ev(e.right, me)
+        if isinstance(e, ast.Call) and isinstance(e.func, ast.Attribute) and e.func.attr in ("conj", "conjugate") and not e.args:
+            return ev(e.func.value, me).conjugate()
         if isinstance(e, ast.Attribute):
             if isinstance(e.value, ast.Name) and e.value.id == me and e.attr == "state":
                 return psi
@@ -60,14 +70,24 @@ def outer_product_obligations(rep):
         rep.add_function(fq, rel, ast.get_source_segment(src, fn) or "", "P (symbolic evaluation of the outer-product statement)")
         me = fn.args.args[0].arg
         cands = []
+        locals_.clear()
+        # named temporaries of the stored vector (e.g. `flat = self.state.flatten()`), in source order
+        for nd in sorted((n for n in ast.walk(fn) if isinstance(n, ast.Assign)), key=lambda n: n.lineno):
+            if len(nd.targets) == 1 and isinstance(nd.targets[0], ast.Name):
+                try:
+                    locals_[nd.targets[0].id] = ev(nd.value, me)
+                except Outside:
+                    locals_.pop(nd.targets[0].id, None)
         for nd in ast.walk(fn):
             if isinstance(nd, ast.Assign) and len(nd.targets) == 1:
                 val = nd.value
                 tgt = nd.targets[0]
                 txt = ast.unparse(val)
-                if ("outer" in txt or "dot" in txt or "matmul" in txt) and f"{me}.state" in txt:
+                uses_state = f"{me}.state" in txt or any(isinstance(x, ast.Name) and x.id in locals_ for x in ast.walk(val))
+                if ("outer" in txt or "dot" in txt or "matmul" in txt or "@" in txt) and uses_state:
                     cands.append((tgt, val))
         ok, detail = False, "no outer-product statement found"
+        refuted = False
         for tgt, val in cands:
             try:
                 got = ev(val, me)
@@ -76,9 +96,14 @@ def outer_product_obligations(rep):
                 # the result must end up in self.state (directly or through a local)
                 if ok:
                     break
+                refuted = True
             except Outside as o:
-                detail = f"outside subset: {o}"
+                if not refuted:
+                    detail = f"outside subset: {o}"
         oid = f"{fq}::ensures:vector-to-matrix-expansion-is-|psi><psi|"
+        if not ok and not refuted:
+            rep.not_covered(fq, ast.get_source_segment(src, fn) or "", f"vector -> matrix expansion: {detail}")
+            continue
         rep.add_ob(Obligation(oid, fq, "ensures", "sympy", "discharged" if ok else "failed", detail=detail))
         if not ok:
             rep.violation(f"{fq}: the vector -> matrix expansion is not |psi><psi|: {detail}", key=f"P:{oid}",
@@ -86,9 +111,182 @@ def outer_product_obligations(rep):
                                   "counter_model": "any vector with a non-real amplitude, e.g. psi = (1, i)/sqrt(2)"}, no_input=True)
 
 
+CONTRACT_SITES = [("photon_weave/state/fock.py", "Fock.contract", True), ("photon_weave/state/polarization.py", "Polarization.contract", True),
+                  ("photon_weave/state/custom_state.py", "CustomState.contract", True), ("photon_weave/state/envelope.py", "Envelope.contract", False),
+                  ("photon_weave/state/composite_envelope.py", "ProductState.contract", False)]
+
+
+def contract_body_obligations(rep):
+    """matrix -> vector contraction: the purity test is |Tr(rho^2) - 1| < tol of the STORED state, the eigen-decomposition is taken of the stored
+    state (not of a transformed copy), the stored vector is the eigenvector COLUMN of the eigenvalue closest to one, and the store is dominated by
+    the purity test; vector -> label contraction uses no tolerance (exact basis states only).  rho is a symbolic 3x3 Hermitian matrix."""
+    syms = {}
+    M = sp.zeros(3, 3)
+    for i in range(3):
+        for j in range(3):
+            if i == j:
+                M[i, j] = sp.Symbol(f"r{i}", real=True)
+            elif i < j:
+                a, b = sp.Symbol(f"a{i}{j}", real=True), sp.Symbol(f"b{i}{j}", real=True)
+                M[i, j] = a + sp.I * b
+                M[j, i] = a - sp.I * b
+    want_purity = sp.expand((M * M).trace())
+
+    def mev(e, me, env):
+        if isinstance(e, ast.Name):
+            if e.id in env:
+                return env[e.id]
+            raise Outside(f"name {e.id}")
+        if isinstance(e, ast.Constant) and isinstance(e.value, (int, float)):
+            return sp.nsimplify(e.value)
+        if isinstance(e, ast.Attribute):
+            if isinstance(e.value, ast.Name) and e.value.id == me and e.attr == "state":
+                return M
+            if e.attr == "T":
+                return mev(e.value, me, env).T
+            if e.attr == "real":
+                return sp.re(mev(e.value, me, env))
+        if isinstance(e, ast.BinOp):
+            l, r = mev(e.left, me, env), mev(e.right, me, env)
+            if isinstance(e.op, ast.Add):
+                return l + r
+            if isinstance(e.op, ast.Sub):
+                return l - r
+            if isinstance(e.op, (ast.Mult, ast.MatMult)):
+                return l * r
+            if isinstance(e.op, ast.Div):
+                return l / r
+        if isinstance(e, ast.Call):
+            f = ast.unparse(e.func)
+            if f in ("jnp.matmul", "jnp.dot", "np.matmul", "np.dot") and len(e.args) == 2:
+                return mev(e.args[0], me, env) * mev(e.args[1], me, env)
+            if f in ("jnp.conj", "jnp.conjugate", "np.conj") and len(e.args) == 1:
+                return mev(e.args[0], me, env).conjugate()
+            if f in ("jnp.trace", "np.trace") and len(e.args) == 1:
+                return mev(e.args[0], me, env).trace()
+            if f in ("jnp.real", "np.real") and len(e.args) == 1:
+                return sp.re(mev(e.args[0], me, env))
+            if isinstance(e.func, ast.Attribute) and e.func.attr in ("conj", "conjugate") and not e.args:
+                return mev(e.func.value, me, env).conjugate()
+            if isinstance(e.func, ast.Attribute) and e.func.attr == "transpose" and not e.args:
+                return mev(e.func.value, me, env).T
+        raise Outside(ast.unparse(e)[:50])
+
+    for rel, q, has_label in CONTRACT_SITES:
+        fq = f"{rel}::{q}"
+        try:
+            tree, src = D.parse(rel)
+            fn = dict(D.functions(tree))[q]
+        except Exception as ex:
+            rep.undecided.append(f"{fq}: {ex}")
+            continue
+        rep.add_function(fq, rel, ast.get_source_segment(src, fn) or "", "P (symbolic evaluation of the purity test and of the eigh argument; dominance)")
+        me = fn.args.args[0].arg
+        parents = {}
+        for nd in ast.walk(fn):
+            for ch in ast.iter_child_nodes(nd):
+                parents[id(ch)] = nd
+        # straight-line local definitions (one symbolic value per simple local)
+        env = {}
+        for nd in ast.walk(fn):
+            if isinstance(nd, ast.Assign) and len(nd.targets) == 1 and isinstance(nd.targets[0], ast.Name):
+                try:
+                    env[nd.targets[0].id] = mev(nd.value, me, env)
+                except Outside:
+                    pass
+        results = []
+        eighs = [nd for nd in ast.walk(fn) if isinstance(nd, ast.Call) and ast.unparse(nd.func) in ("jnp.linalg.eigh", "np.linalg.eigh")]
+        if len(eighs) != 1:
+            results.append(("eigh-argument-is-the-stored-state", "unknown", f"{len(eighs)} eigh call(s)"))
+        else:
+            eg = eighs[0]
+            try:
+                got = mev(eg.args[0], me, env)
+                ok = sp.simplify(got - M) == sp.zeros(3, 3)
+                results.append(("eigh-argument-is-the-stored-state", "discharged" if ok else "failed",
+                                f"eigh({ast.unparse(eg.args[0])[:60]}) {'==' if ok else '!='} eigh(rho) for Hermitian rho"))
+            except Outside as o:
+                results.append(("eigh-argument-is-the-stored-state", "unknown", f"outside subset: {o}"))
+            # dominance by the purity test: either an enclosing `if abs(Q - 1) < tol`, or a preceding `if abs(Q - 1) >= tol: return`
+            test = None
+            cur = eg
+            while id(cur) in parents:
+                par = parents[id(cur)]
+                if isinstance(par, ast.If) and cur in par.body and "tol" in ast.unparse(par.test):
+                    test = ("pos", par.test)
+                    break
+                cur = par
+            if test is None:
+                for nd in ast.walk(fn):
+                    if isinstance(nd, ast.If) and "tol" in ast.unparse(nd.test) and len(nd.body) == 1 and isinstance(nd.body[0], ast.Return) and nd.lineno < eg.lineno:
+                        test = ("neg", nd.test)
+            if test is None:
+                results.append(("contraction-is-dominated-by-the-purity-test", "failed", "the eigen-decomposition is not guarded by a tolerance test"))
+            else:
+                kind, t = test
+                okform = (isinstance(t, ast.Compare) and len(t.ops) == 1 and isinstance(t.ops[0], (ast.Lt, ast.LtE) if kind == "pos" else (ast.GtE, ast.Gt))
+                          and ast.unparse(t.comparators[0]) == "tol" and isinstance(t.left, ast.Call) and ast.unparse(t.left.func) in ("jnp.abs", "np.abs", "abs")
+                          and isinstance(t.left.args[0], ast.BinOp) and isinstance(t.left.args[0].op, ast.Sub))
+                if not okform:
+                    results.append(("contraction-is-dominated-by-the-purity-test", "unknown", f"test `{ast.unparse(t)[:60]}` not of the form abs(Q - 1) < tol"))
+                else:
+                    try:
+                        qv = sp.expand(mev(t.left.args[0].left, me, env))
+                        one = mev(t.left.args[0].right, me, env)
+                        ok = sp.simplify(qv - want_purity) == 0 and one == 1
+                        results.append(("contraction-is-dominated-by-the-purity-test", "discharged" if ok else "failed",
+                                        f"guard `{ast.unparse(t)[:70]}`: Q {'==' if ok else '!='} Tr(rho^2)"))
+                    except Outside as o:
+                        results.append(("contraction-is-dominated-by-the-purity-test", "unknown", f"outside subset: {o}"))
+            # the stored vector: eigenvectors[:, argmax(abs(eigenvalues - 1) < tol)]
+            tgt = parents.get(id(eg))
+            names = [x.id for x in tgt.targets[0].elts] if isinstance(tgt, ast.Assign) and isinstance(tgt.targets[0], ast.Tuple) and len(tgt.targets[0].elts) == 2 else None
+            okcol = False
+            detail = "pattern not found"
+            if names:
+                evals, evecs = names
+                idx_defs = {nd.targets[0].id: nd.value for nd in ast.walk(fn) if isinstance(nd, ast.Assign) and len(nd.targets) == 1 and isinstance(nd.targets[0], ast.Name)}
+                for nd in ast.walk(fn):
+                    if isinstance(nd, ast.Subscript) and isinstance(nd.value, ast.Name) and nd.value.id == evecs and isinstance(nd.slice, ast.Tuple) and len(nd.slice.elts) == 2:
+                        a, b = nd.slice.elts
+                        col = isinstance(a, ast.Slice) and a.lower is None and a.upper is None
+                        idx = idx_defs.get(b.id) if isinstance(b, ast.Name) else b
+                        itxt = ast.unparse(idx).replace(" ", "") if idx is not None else ""
+                        good_idx = itxt in (f"jnp.argmax(jnp.abs({evals}-1.0)<tol)", f"jnp.argmax(jnp.abs({evals}-1)<tol)")
+                        okcol = col and good_idx
+                        detail = f"`{ast.unparse(nd)}` with index `{itxt[:60]}`"
+                        if not col:
+                            detail += " (a ROW of the eigenvector matrix)"
+            results.append(("stored-vector-is-the-eigenvector-column-of-eigenvalue-one", "discharged" if okcol else ("failed" if names and "ROW" in detail else "unknown"), detail))
+        if has_label:
+            # the vector -> label block: the `if` whose test mentions ExpansionLevel.Vector and `final`
+            blocks = [nd for nd in ast.walk(fn) if isinstance(nd, ast.If) and "ExpansionLevel.Vector" in ast.unparse(nd.test) and "final" in ast.unparse(nd.test)
+                      and "self.expansion_level" in ast.unparse(nd.test).replace(me + ".", "self.")]
+            if len(blocks) != 1:
+                results.append(("label-only-for-an-exact-basis-state", "unknown", f"{len(blocks)} vector->label block(s)"))
+            else:
+                # the contraction tolerance `tol` (1e-6) or an explicit atol / rtol must not decide a label; jnp.allclose with its default
+                # (machine-level) tolerances is how 1/sqrt(2) amplitudes are recognised and counts as exact recognition
+                toler = sorted({nd.id for s in blocks[0].body for nd in ast.walk(s) if isinstance(nd, ast.Name) and nd.id == "tol"}
+                               | {k.arg for s in blocks[0].body for nd in ast.walk(s) if isinstance(nd, ast.Call) for k in nd.keywords if k.arg in ("atol", "rtol")})
+                results.append(("label-only-for-an-exact-basis-state", "failed" if toler else "discharged",
+                                f"the vector -> label block uses a tolerance ({', '.join(toler)})" if toler else "no tolerance in the vector -> label block"))
+        fsrc = ast.get_source_segment(src, fn) or ""
+        for name, status, detail in results:
+            oid = f"{fq}::ensures:{name}"
+            if status == "unknown":
+                rep.not_covered(fq, fsrc, f"{name}: {detail}")
+                continue
+            rep.add_ob(Obligation(oid, fq, "ensures", "sympy", status, detail=detail))
+            if status == "failed":
+                rep.violation(f"{fq}: {name}: {detail}", key=f"P:{oid}",
+                              replay={"kind": "obligation", "function": fq, "failed_obligations": [oid], "solver_output": detail}, no_input=True)
+
+
 def run(rep, tier):
     kernels.oracle_self_check(rep)
     outer_product_obligations(rep)
+    contract_body_obligations(rep)
     seed = common.seed()
     st = [c for c in morecells.structural_cells(tier, seed) if c["action"]["what"] in ("expand", "contract")]
     B.run_b(rep, st, ["C08"], tier=tier)
@@ -98,3 +296,6 @@ def run(rep, tier):
         c["twin_contraction"] = True
     B.run_b(rep, sample, ["C08"], tier=tier)
     B.run_b(rep, msample, ["C08"], explore=True, tier=tier)
+    rep.assume("contract bodies: jnp.linalg.eigh returns the eigen-decomposition of a Hermitian matrix (trusted, JAX); an identity between expressions built from "
+               "transposition / conjugation / sums that holds for a generic 3x3 Hermitian matrix holds in every dimension (the operations are index-uniform); "
+               "jnp.allclose with its default tolerances counts as exact recognition of a basis vector (1/sqrt(2) amplitudes are not representable)")
